@@ -307,6 +307,16 @@ def ext(s, ctx, func, g, tc, A, caller, ln, last):
         return ok(unit())
     if tc and tc[0] == 'String' and tc[1] == 'Add' and tc[2] == 'add':
         return Str(('concat', [deref_all(A[0]), deref_all(A[1])]))
+    # ------------------------------------------------------------ comparison traits through an unresolved type parameter (`S: PartialOrd`): dispatch on the values
+    if tc and tc[1] in ('PartialOrd', 'PartialEq', 'Ord') and tc[2] in ('lt', 'le', 'gt', 'ge', 'eq', 'ne') and re.match(r'^[A-Z][A-Za-z]?\d?$', tc[3].strip()):
+        a, b = deref_all(A[0]), deref_all(A[1])
+        from .engine import FSpec, is_real
+        op = {'lt': 'Lt', 'le': 'Le', 'gt': 'Gt', 'ge': 'Ge', 'eq': 'Eq', 'ne': 'Ne'}[tc[2]]
+        if isinstance(a, (Agg, Str, SeqM)) or isinstance(b, (Agg, Str, SeqM)):
+            if op in ('Eq', 'Ne'):
+                r_ = term_eq(a, b); return r_ if op == 'Eq' else b_not(r_)
+            c = _cmp(ctx, a, b); return {'Lt': c < 0, 'Le': c <= 0, 'Gt': c > 0, 'Ge': c >= 0}[op]
+        return s.binop(ctx, op, a, b, 'bool')
     # ------------------------------------------------------------ Deref through an unresolved type parameter: dispatch on the value
     if tc and tc[1] in ('Deref', 'DerefMut') and tc[2] in ('deref', 'deref_mut') and re.match(r'^[A-Z][A-Za-z]?\d?$', tc[3].strip()):
         v = deref_all(A[0])
